@@ -317,7 +317,7 @@ pub fn for_variants(g: &Grammar, toks: &[GTok], opts: &VariantOpts, mut f: impl 
                 continue;
             }
             for k in 0..layout::COMMENTS.len() {
-                for p in 0..3 {
+                for p in 0..4 {
                     f(&layout::with_comment(toks, &l0, i, k, p), "comment");
                 }
             }
